@@ -28,14 +28,17 @@ pub fn side<T: Copy>(p: &VPool<T>, long: bool) -> T {
     }
 }
 
-/// Runs the real `Swap::try_new(..)?.execute()` on `pre` and checks C04 and C05.
-/// Returns `Some(out)` on success.
+/// Runs the real `Swap::try_new(..)?.execute()` on `*m` and checks the C04 clauses (`c04`) and/or
+/// the C05 clauses (`c05`). Returns `Some((out, impact value, impact amount taken from the token-in
+/// impact pool))` on success.
 pub fn check_swap<T, O, const D: u8>(
     m: &mut VMarket<T, D>,
     is_in_long: bool,
     amount: T,
     p: Prices<T>,
-) -> Option<T>
+    c04: bool,
+    c05: bool,
+) -> Option<(T, O, O)>
 where
     O: Wide,
     T: FixedPointOps<D> + CheckedSub + W<O = O> + Copy + PartialEq,
@@ -52,7 +55,9 @@ where
             std::mem::forget(e);
             // C04 atomicity: a failed swap leaves every pool (every field) of the market unchanged,
             // and no mutable accessor has even been requested.
-            assert!(m.same(&pre), "C04: failed swap changed the market");
+            if c04 {
+                assert!(m.same(&pre), "C04: failed swap changed the market");
+            }
             None
         }
         Ok(report) => {
@@ -72,6 +77,9 @@ where
             let sum = |mk: &VMarket<T, D>, long: bool| -> O {
                 side(&mk.primary, long).w() + side(&mk.swap_impact, long).w() + side(&mk.fee, long).w()
             };
+            let d_imp_in = side(&pre.swap_impact, il).w() - side(&m.swap_impact, il).w();
+            let d_imp_out = side(&pre.swap_impact, !il).w() - side(&m.swap_impact, !il).w();
+            if c04 {
             assert!(
                 sum(&*m, il) == sum(&pre, il) + amount.w(),
                 "C04: holdings of token-in did not grow by exactly the input amount"
@@ -89,8 +97,6 @@ where
                 side(&m.fee, !il) == side(&pre.fee, !il),
                 "C04: claimable fee (token-out) changed"
             );
-            let d_imp_in = side(&pre.swap_impact, il).w() - side(&m.swap_impact, il).w();
-            let d_imp_out = side(&pre.swap_impact, !il).w() - side(&m.swap_impact, !il).w();
             if impact > z {
                 assert!(d_imp_out == pia, "C04: positive impact not taken from the token-out impact pool");
                 assert!(d_imp_in >= z, "C04: token-in impact pool grew on positive impact");
@@ -128,7 +134,8 @@ where
                 assert!(m.vi_swaps.same(&pre.vi_swaps), "C04: absent virtual inventory written");
             }
             assert!(m.same_other_pools(&pre) & m.same_params(&pre), "C04: a successful swap changed something other than liquidity / swap-impact / claimable-fee / virtual-inventory pools");
-
+            }
+            if c05 {
             // ---- C05: value bound -------------------------------------------------------------
             // funded positive impact = what left the swap-impact pools, at the prices the code uses
             let funded = if impact > z {
@@ -155,7 +162,8 @@ where
                     "C05: zero fee and zero impact: out != floor(in * p_in.min / p_out.max)"
                 );
             }
-            Some(out)
+            }
+            Some((out, impact, d_imp_in))
         }
     }
 }
@@ -172,6 +180,14 @@ fn market_u8_all_symbolic_exp01() -> VMarket<u8, 1> {
     m
 }
 
+fn whole_covers(r: Option<(u8, i32, i32)>) {
+    kani::cover!(r.is_none(), "swap failed");
+    kani::cover!(matches!(r, Some((o, _, _)) if o > 1), "swap succeeded with a non-trivial output");
+    kani::cover!(matches!(r, Some((_, i, _)) if i < 0), "negative impact");
+    kani::cover!(matches!(r, Some((_, i, d)) if i > 0 && d == 0), "positive impact paid from the token-out impact pool");
+    kani::cover!(matches!(r, Some((_, i, d)) if i > 0 && d > 0), "capped positive impact, remainder paid from the token-in impact pool");
+}
+
 //@ prop=C04 tier=thorough kind=hold
 //@ enc=Swap::try_new, Swap::execute, Swap::try_execute, Swap::reassign_values, Swap::charge_fees, SwapMarketExt::swap_impact_value, SwapMarketExt::swap_impact_amount_with_cap, PoolDelta::try_new, PoolDelta::price_impact, PriceImpactParams::adjusted_factors, utils::apply_factors, FeeParams::apply_fees, BaseMarketExt::checked_apply_delta, BaseMarketExt::validate_pool_amount, BaseMarketExt::validate_reserve, BaseMarketExt::validate_max_pnl, Price::mid, Prices::validate
 //@ bound=T=u8 DECIMALS=1 (UNIT 10); whole Swap::execute end to end: every pool, limit, pnl/reserve factor, open interest, virtual inventory (absent/present), fee / receiver / discount factor, impact factor, side, amount and all six prices symbolic (0<min<=max, min+max<=255); impact exponent in {0, 1.0} (unwind 1: the integer-power loop is never entered, checked by the unwinding assertion)
@@ -180,10 +196,61 @@ fn market_u8_all_symbolic_exp01() -> VMarket<u8, 1> {
 #[kani::unwind(1)]
 fn c04_swap_whole_u8() {
     let mut m = market_u8_all_symbolic_exp01();
-    let r = check_swap(&mut m, kani::any(), kani::any(), any_prices_u8());
-    kani::cover!(r.is_some(), "swap succeeded");
-    kani::cover!(r.is_none(), "swap failed");
-    kani::cover!(matches!(r, Some(o) if o > 1), "non-trivial output");
+    let r = check_swap(&mut m, kani::any(), kani::any(), any_prices_u8(), true, false);
+    whole_covers(r);
+}
+
+//@ prop=C05 tier=thorough kind=hold
+//@ enc=Swap::try_new, Swap::execute, Swap::try_execute, Swap::reassign_values, Swap::charge_fees, SwapMarketExt::swap_impact_value, SwapMarketExt::swap_impact_amount_with_cap, PoolDelta::price_impact, FeeParams::apply_fees, MulDiv::checked_mul_div, Price::pick_price
+//@ bound=T=u8 DECIMALS=1 (UNIT 10); whole Swap::execute end to end: every pool, limit, pnl/reserve factor, open interest, virtual inventory (absent/present), fee / receiver / discount factor, impact factor, side, amount and all six prices symbolic (0<min<=max, min+max<=255); impact exponent in {0, 1.0} (unwind 1)
+//@ timeout=5400 mem=36
+#[kani::proof]
+#[kani::unwind(1)]
+fn c05_swap_value_bound_whole_u8() {
+    let mut m = market_u8_all_symbolic_exp01();
+    let r = check_swap(&mut m, kani::any(), kani::any(), any_prices_u8(), false, true);
+    whole_covers(r);
+    kani::cover!(matches!(r, Some((o, i, _)) if i == 0 && o > 0) && m.swap_fee_negative == 0 && m.swap_fee_positive == 0, "zero fee and zero impact swap");
+}
+
+/// Lean market for the cheaper whole-swap harnesses: no open interest, no virtual inventory, limits
+/// at their maximum; liquidity / swap-impact / claimable-fee pools, swap fee factors and swap impact
+/// factors (exponent 1.0) symbolic.
+fn market_u8_lean() -> VMarket<u8, 1> {
+    let mut m: VMarket<u8, 1> = VMarket::default();
+    m.usd_to_amount_divisor = 1;
+    m.max_pool_amount_long = kani::any();
+    m.max_pool_amount_short = kani::any();
+    m.pnl_deposit_long = 10;
+    m.pnl_deposit_short = 10;
+    m.pnl_withdrawal_long = 10;
+    m.pnl_withdrawal_short = 10;
+    m.reserve_factor = 10;
+    m.oi_reserve_factor = 10;
+    m.max_oi_long = 255;
+    m.max_oi_short = 255;
+    m.primary = sym::pool();
+    m.swap_impact = sym::pool();
+    m.fee = sym::pool();
+    m.swap_impact_exponent = 10;
+    m.swap_impact_positive = kani::any();
+    m.swap_impact_negative = kani::any();
+    m.swap_fee_positive = kani::any();
+    m.swap_fee_negative = kani::any();
+    m.swap_fee_receiver = kani::any();
+    m
+}
+
+//@ prop=C04 tier=thorough kind=hold
+//@ enc=Swap::try_new, Swap::execute, Swap::try_execute, SwapMarketExt::swap_impact_value, SwapMarketExt::swap_impact_amount_with_cap, PoolDelta::price_impact, FeeParams::apply_fees, BaseMarketExt::checked_apply_delta, BaseMarketExt::validate_pool_amount
+//@ bound=T=u8 DECIMALS=1 (UNIT 10); whole Swap::execute, lean state: liquidity / swap-impact / claimable-fee pools, max pool amounts, swap fee + receiver factors, swap impact factors (exponent 1.0), side, amount, all six prices symbolic; no open interest, no virtual inventory. Checks C04 and C05 clauses together (cheaper companion of the all-symbolic harnesses; used for the mutation runs)
+//@ timeout=3600 mem=30
+#[kani::proof]
+#[kani::unwind(1)]
+fn c04_swap_whole_lean_u8() {
+    let mut m = market_u8_lean();
+    let r = check_swap(&mut m, kani::any(), kani::any(), any_prices_u8(), true, true);
+    whole_covers(r);
 }
 
 // ------------------------------------------------------------------------------------------------
@@ -194,15 +261,17 @@ fn c04_swap_whole_u8() {
 /// documented failure conditions of the instantiation (`smax` = max of the signed type,
 /// `umax` = max of the unsigned type).
 /// Returns `None` for "must fail", `Some((amount, capped_diff_value))` otherwise.
-fn ref_impact_amount<O: Wide>(
-    pool_side: O,
-    pmin: O,
-    pmax: O,
-    usd: O,
-    smax: O,
-    umax: O,
-) -> Option<(O, O)> {
+///
+/// Quotients are not computed with a division (two different divider circuits are hard to relate
+/// for the SAT solver) but named by a fresh witness `q` constrained by `q*d <= n < (q+1)*d`,
+/// which determines it uniquely.
+fn ref_impact_amount<T, O>(pool_side: O, pmin: O, pmax: O, usd: O, smax: O, umax: O) -> Option<(O, O)>
+where
+    O: Wide,
+    T: W<O = O> + kani::Arbitrary,
+{
     let z = O::zero();
+    let one = O::one();
     if pmin == z || pmax == z {
         return None;
     }
@@ -210,7 +279,9 @@ fn ref_impact_amount<O: Wide>(
         if pmax > smax {
             return None; // price does not convert to the signed type
         }
-        let amount = usd / pmax; // rounded down: the user gets at most the impact value
+        // amount = floor(usd / pmax): the user gets at most the impact value
+        let amount = kani::any::<T>().w();
+        kani::assume(amount * pmax <= usd && (amount + one) * pmax > usd);
         if pool_side > smax {
             return None; // pool balance does not convert to the signed type
         }
@@ -228,11 +299,13 @@ fn ref_impact_amount<O: Wide>(
             return None;
         }
         // code: (usd - p + 1) / p, each step checked in the signed type
-        if usd - pmin < -(smax + O::one()) {
+        if usd - pmin < -(smax + one) {
             return None;
         }
-        let amount = -cdiv(-usd, pmin); // magnitude rounded up: the user pays at least the impact value
-        Some((amount, z))
+        // magnitude = ceil(|usd| / pmin): the user pays at least the impact value
+        let k = kani::any::<T>().w();
+        kani::assume(k * pmin >= -usd && (k - one) * pmin < -usd);
+        Some((-k, z))
     } else {
         Some((z, z))
     }
@@ -247,14 +320,14 @@ fn check_impact_amount<T, O, const D: u8>(
     umax: O,
 ) where
     O: Wide,
-    T: FixedPointOps<D> + CheckedSub + W<O = O> + Copy + PartialEq + Default,
+    T: FixedPointOps<D> + CheckedSub + W<O = O> + Copy + PartialEq + Default + kani::Arbitrary,
     T::Signed: Num + UnsignedAbs<Unsigned = T> + TryFrom<T> + W<O = O> + Copy,
 {
     let z = O::zero();
     let mut m: VMarket<T, D> = VMarket::default();
     m.swap_impact = pool;
     let got = m.swap_impact_amount_with_cap(is_long, &price, &usd);
-    let want = ref_impact_amount(
+    let want = ref_impact_amount::<T, O>(
         side(&pool, is_long).w(),
         price.min.w(),
         price.max.w(),
@@ -277,7 +350,7 @@ fn check_impact_amount<T, O, const D: u8>(
             }
             kani::cover!(usd.w() > z && c > z, "capped positive impact");
             kani::cover!(usd.w() > z && c == z && a > z, "uncapped positive impact");
-            kani::cover!(usd.w() < z && (-usd.w()) % price.min.w() != z, "negative impact with a remainder");
+            kani::cover!(usd.w() < z && -a * price.min.w() > -usd.w(), "negative impact with a remainder");
             assert!(want == Some((a, c)), "C04: swap_impact_amount_with_cap differs from the exact reference");
         }
         Err(e) => {
@@ -297,9 +370,9 @@ fn c04_impact_amount_with_cap_u8() {
     check_impact_amount::<u8, i32, 1>(sym::pool(), kani::any(), price, kani::any::<i8>(), i8::MAX as i32, u8::MAX as i32);
 }
 
-//@ prop=C04 tier=quick kind=hold
+//@ prop=C04 tier=experimental kind=hold
 //@ enc=SwapMarketExt::swap_impact_amount_with_cap, Price::has_zero, Price::pick_price, Unsigned::to_signed
-//@ bound=T=u16/i16: every impact-pool balance, side, price pair (incl. zero, min>max) and every i16 impact value
+//@ bound=T=u16/i16: every impact-pool balance, side, price pair (incl. zero, min>max) and every i16 impact value -- does NOT finish within 900 s (16-bit signed division by a symbolic divisor against a multiplication-based reference), never selected
 #[kani::proof]
 fn c04_impact_amount_with_cap_u16() {
     let price = Price { min: kani::any::<u16>(), max: kani::any::<u16>() };
@@ -308,11 +381,11 @@ fn c04_impact_amount_with_cap_u16() {
 
 //@ prop=C05 tier=quick kind=hold
 //@ enc=SwapMarketExt::swap_impact_amount_with_cap, Price::has_zero, Price::pick_price, Unsigned::to_signed
-//@ bound=T=u16/i16: every impact-pool balance, side, price pair and every i16 impact value (same harness body as the C04 one: the cap and the rounding directions are what C05's "funded impact" rests on)
+//@ bound=T=u8/i8: every impact-pool balance, side, price pair (incl. zero, min>max) and every i8 impact value (same body as the C04 harness: the cap by the impact pool balance, rounding down of the paid amount and the exact capped-diff value are what C05's "funded impact" rests on)
 #[kani::proof]
-fn c05_impact_amount_with_cap_u16() {
-    let price = Price { min: kani::any::<u16>(), max: kani::any::<u16>() };
-    check_impact_amount::<u16, i64, 2>(sym::pool(), kani::any(), price, kani::any::<i16>(), i16::MAX as i64, u16::MAX as i64);
+fn c05_impact_amount_with_cap_u8() {
+    let price = Price { min: kani::any::<u8>(), max: kani::any::<u8>() };
+    check_impact_amount::<u8, i32, 1>(sym::pool(), kani::any(), price, kani::any::<i8>(), i8::MAX as i32, u8::MAX as i32);
 }
 
 // ------------------------------------------------------------------------------------------------
